@@ -398,3 +398,9 @@ T('C04-T-indexed-view-tuple-forms', 'C04', (DERIVED_PY, "            view = list
 STATE_PY_ = 'glue/core/state.py'
 W('C12-W-v3-joins-bare-identifiers', 'C12', 'C12.h', (STATE_PY_, "        return cids if isinstance(cids, tuple) else (cids,)\n", "        return cids\n"))
 T('C12-T-v3-joins-tuple-or-list', 'C12', (STATE_PY_, "        return cids if isinstance(cids, tuple) else (cids,)\n", "        return cids if isinstance(cids, (tuple, list)) else (cids,)\n"))
+
+# F39 / F40 must be reported again if they return
+W('C01-W-multior-keeps-callers-list', 'C01', 'C01.d(i)', (SUBSET, "        self.states = list(states)\n", "        self.states = states\n"))
+T('C01-T-multior-list-comprehension', 'C01', (SUBSET, "        self.states = list(states)\n", "        self.states = [state for state in states]\n"))
+PARSE_PY = 'glue/core/parse.py'
+W('C14-W-parsed-link-no-replace-ids', 'C14', 'C14.g', (PARSE_PY, "    def replace_ids(self, old, new):\n        super(ParsedComponentLink, self).replace_ids(old, new)\n", "    def _replace_ids_unused(self, old, new):\n        super(ParsedComponentLink, self).replace_ids(old, new)\n"))
